@@ -69,33 +69,34 @@ type Exec struct {
 	globals    map[*ssa.Global]*Cell
 	globalIn   map[string]T
 
-	loops       map[*ssa.BasicBlock]*loopInfo
-	backEdge    map[[2]*ssa.BasicBlock]bool
-	kindCount   map[string]int
-	callCount   map[string]int
-	rsTerms     [][2]T
-	splitVal    *int
-	splitDone   bool
-	splitRange  bool
-	decTerms    [][2]T
-	beTerms     [][3]T
-	foldTerms   []foldApp
-	suffix      string
-	srcLines    map[string][]string
-	usedWaivers map[*Waiver]bool
-	warnings    []string
-	retCount    int
-	oldMem      *State // memory snapshot used for old(*p) while evaluating a callee contract
-	cutsDone    map[*CutSpec]bool
-	cutFacts    []int
-	mergeStates []*State
-	limited     bool
-	assertsDone map[*AssertSpec]bool
-	ghostCells  map[string]*Cell
-	ghostDone   map[*GhostSet]bool
-	appliesDone map[*ApplySpec]bool
-	arrayCells  map[*Cell]int
-	arrayElem   map[*Cell]MT
+	loops        map[*ssa.BasicBlock]*loopInfo
+	backEdge     map[[2]*ssa.BasicBlock]bool
+	kindCount    map[string]int
+	callCount    map[string]int
+	rsTerms      [][2]T
+	splitVal     *int
+	splitDone    bool
+	splitRange   bool
+	decTerms     [][2]T
+	beTerms      [][3]T
+	foldTerms    []foldApp
+	suffix       string
+	srcLines     map[string][]string
+	usedWaivers  map[*Waiver]bool
+	warnings     []string
+	retCount     int
+	oldMem       *State // memory snapshot used for old(*p) while evaluating a callee contract
+	cutsDone     map[*CutSpec]bool
+	cutFacts     []int
+	mergeStates  []*State
+	limited      bool
+	assertsDone  map[*AssertSpec]bool
+	callArgsDone map[*CallArgSpec]bool
+	ghostCells   map[string]*Cell
+	ghostDone    map[*GhostSet]bool
+	appliesDone  map[*ApplySpec]bool
+	arrayCells   map[*Cell]int
+	arrayElem    map[*Cell]MT
 }
 
 func (x *Exec) VC() *VC { return x.vc }
@@ -488,7 +489,7 @@ func newExec(w *World, fn *ssa.Function, c *Contract, split *int) *Exec {
 		loops: map[*ssa.BasicBlock]*loopInfo{}, backEdge: map[[2]*ssa.BasicBlock]bool{},
 		kindCount: map[string]int{}, callCount: map[string]int{}, srcLines: map[string][]string{},
 		usedWaivers: map[*Waiver]bool{}, splitVal: split,
-		arrayCells: map[*Cell]int{}, arrayElem: map[*Cell]MT{}, cutsDone: map[*CutSpec]bool{}, assertsDone: map[*AssertSpec]bool{}, ghostCells: map[string]*Cell{}, ghostDone: map[*GhostSet]bool{}, appliesDone: map[*ApplySpec]bool{}}
+		arrayCells: map[*Cell]int{}, arrayElem: map[*Cell]MT{}, cutsDone: map[*CutSpec]bool{}, assertsDone: map[*AssertSpec]bool{}, callArgsDone: map[*CallArgSpec]bool{}, ghostCells: map[string]*Cell{}, ghostDone: map[*GhostSet]bool{}, appliesDone: map[*ApplySpec]bool{}}
 	x.vc = newVC(x.name, mode)
 	if split != nil {
 		x.suffix = fmt.Sprintf("/%s=%d", c.Split.Var, *split)
@@ -978,7 +979,7 @@ func beInstances(terms [][3]T) []string {
 // ---------------------------------------------------------------- fold specification functions
 
 type foldApp struct {
-	Name       string
+	Name        string
 	Arr, Off, N T
 }
 
@@ -992,7 +993,8 @@ func (w *World) foldMap() map[string]*Fold {
 
 // foldInstances unfolds every application F(a, off, n) once (and the applications at n-1 that the
 // unfolding introduces, down to the given depth):
-//   n <= 0 => F = init;   n >= 1 => F(a,off,n) = step[acc := F(a,off,n-1), c := a[off+n-1], G := G(a,off,n-1)]
+//
+//	n <= 0 => F = init;   n >= 1 => F(a,off,n) = step[acc := F(a,off,n-1), c := a[off+n-1], G := G(a,off,n-1)]
 func (w *World) foldInstances(apps []foldApp, depth int) []string {
 	var out []string
 	seen := map[string]bool{}
